@@ -235,6 +235,9 @@ def run(chk):
     chk.default_found = found
     try:
         query_fresh(chk, found)
+        from . import C16
+
+        C16.owner_layout(chk, glue.make_exec(chk), "HyperLogLog", None)  # 'every register state': the shared sketch has exactly 2^p registers too
     except X.Unsupported as e:
         chk.undecided.append(("HyperLogLog.query freshness", "unsupported construct in glue: %s" % e))
 
